@@ -11,6 +11,8 @@ Lemma bridge_start_lb : forall now rel, start_lb now rel = Z.max (now + 1) rel.
 Proof. reflexivity. Qed.
 Lemma bridge_running_start : forall now, running_start now = now.
 Proof. reflexivity. Qed.
+Lemma bridge_warm_start : warm_start_guarded = true.
+Proof. reflexivity. Qed.
 Lemma bridge_deadline : deadline_start_coef = 1 /\ (forall r, deadline_term_coef r = r) /\
   deadline_sense = SLe /\ (forall d, deadline_rhs d = d).
 Proof. repeat split; intros; unfold deadline_term_coef; lia. Qed.
